@@ -85,3 +85,10 @@ PROPS["C10"]["families"] = ["shard", "launch"]
 PROPS["C10"]["assumptions"] = PROPS["C10"]["assumptions"] + ["launch: hooks are listed in a fixed order in the model; the implementation ranges over a map, so the compared observation is the sorted list of roles",
     "role strings: strings.ToLower modelled on ASCII only (the harness uses ASCII names)"]
 PROPS["C10"]["explanation"] += "; launch list and role names: every combination of default / per-step / per-connector parallel count in {0,1,2,3,8} x timeouts x hooks x paused-retry + random configurations, two builds differing only in status display strings"
+
+PROPS["C06"]["families"] = PROPS["C06"]["families"] + ["await"]
+PROPS["C06"]["assumptions"] = PROPS["C06"]["assumptions"] + ["await: 'Await has not returned' is observed with a 6 ms wait per published event (30 ms at the end) on the in-memory adapters"]
+
+PROPS["C20"] = {"families": ["engine"], "assumptions": ENGINE_ASSUME + ["robfig/cron is not modelled: the model's cron_next covers the periodic specifications of the harness family (every minute, */15, 0,30, @hourly, @daily) as (period, phase); every deadline the real scheduler computes with cron.ParseStandard(spec).Next is compared with it (TW tokens); @monthly and other non-periodic specifications are outside the model"],
+                "explanation": "five cron specifications x all clock-advance sequences up to a depth (1 s, tick-1 s, tick, 3 ticks, 20 s) x filter answers; random histories with older runs, pauses/cancels, lease losses, crashes and adapter faults; invalid specification"}
+PROPS["C20"]["families"] = ["engine", "schedrej"]
